@@ -8,11 +8,11 @@ ALL_INV = ["TypeOK", "FilterRespectsUnderlyingHigh", "Conserved", "EofAfterAllDa
 
 def consts(kind, acts, D, *, sizes=(1, 2, 3), wms=((0, 0), (1, 2), (2, 2), (2, 1), (0, 1)), durs=(0, 1, 2),
            drains=(0, 1, 99), extras=("none",), defer=False, filtfn="id", maxcb=8, tend=5, rdcap=16384, wrcap=16384,
-           conn="none", allow=(), xkinds=("r", "e"), script_until=2, oneway=False, wirecap=40):
+           conn="none", allow=(), xkinds=("r", "e"), script_until=2, oneway=False, wirecap=40, stall=False):
     return {"Kind": kind, "Acts": set(acts), "Sizes": set(sizes), "WMs": set(10 * w[0] + w[1] for w in wms),
             "Durs": set(durs), "D": D, "Drains": set(drains), "Extras": set(extras), "XKinds": set(xkinds), "ScriptUntil": script_until, "Defer": bool(defer),
             "FiltFn": filtfn, "MaxCb": maxcb, "TEnd": tend, "RdCap": rdcap, "WrCap": wrcap, "Conn": conn,
-            "Allow": set(allow), "OneWay": bool(oneway), "WireCap": wirecap}
+            "Allow": set(allow), "OneWay": bool(oneway), "WireCap": wirecap, "Stall": bool(stall)}
 
 
 def tla_val(v):
@@ -150,6 +150,60 @@ def wm_reset_family(kind):
                     sc = [{"a": "clr", "e": 2}] + (en + wms if first else wms + en) + [{"a": "write", "e": 1, "n": H + 2}] + lp() + \
                          [{"a": "read", "e": 2, "n": k}] + lp() + [{"a": "read", "e": 2, "n": 99}] + lp()
                     out.append(sc)
+    return out
+
+
+def conn_deferred_family():
+    """Deferred client socket (endpoint 1) connecting to a listener whose accepted end (2) has already sent / hung up when
+    the client's loop first runs: CONNECTED first, then read / write callbacks, then EOF, nothing lost; plus two
+    bufferevent_trigger_event(DEFER) calls with different flags before one loop: both flags are delivered."""
+    L1, L2 = {"a": "loop", "e": 1, "t": 0}, {"a": "loop", "e": 2, "t": 0}
+    con, enr, w1 = {"a": "connect", "e": 1, "ok": 1}, {"a": "enable", "e": 1, "m": 2}, {"a": "write", "e": 1, "n": 1}
+    shut = {"a": "shut", "e": 2}
+    out = [[con, w1, enr, shut, L1, L2], [con, enr, w1, shut, L1, L2], [con, enr, shut, L1], [con, w1, shut, enr, L1],
+           [con, enr, {"a": "write", "e": 2, "n": 2}, L2, shut, L1], [con, w1, enr, {"a": "write", "e": 2, "n": 1}, L2, shut, L1, L2]]
+    for f1, f2 in ((65, 66), (66, 65), (33, 66), (65, 34)):
+        out.append([con, L1, {"a": "trig", "e": 1, "f": f1}, {"a": "trig", "e": 1, "f": f2}, L1])
+        out.append([con, {"a": "trig", "e": 1, "f": f1}, {"a": "trig", "e": 1, "f": f2}, L1])   # joins CONNECTED as well
+    return out
+
+
+def conn_refused_family():
+    """Refused connect -> ERROR; then the application re-arms writing on the same bufferevent: no CONNECTED may follow,
+    the failed write is one ERROR|WRITING."""
+    L1 = {"a": "loop", "e": 1, "t": 0}
+    con, enw, w1 = {"a": "connect", "e": 1, "ok": 0}, {"a": "enable", "e": 1, "m": 4}, {"a": "write", "e": 1, "n": 1}
+    return [[con, L1, enw, w1, L1], [con, L1, w1, enw, L1], [con, L1, enw, L1, w1, enw, L1], [con, L1, enw, w1, L1, L1]]
+
+
+def pair_tmo_suspended_family(kind="pair"):
+    """Reader with read high watermark H (low watermark above it, so no read callback runs) receives H units and is
+    suspended; set_timeouts(read=T) DURING the suspension; T passes: no timeout; after the application drains (outside a
+    callback) the interval starts: exactly one timeout T later."""
+    out = []
+    rd, wr = (2, 1) if kind == "pair" else (3, 2)
+    lp = lambda t: {"a": "loop", "e": 1, "t": t}
+    for H in (1, 2):
+        for T in (1, 2):
+            pre = [{"a": "wm", "e": rd, "m": 2, "lo": 3, "hi": H}, {"a": "enable", "e": rd, "m": 2}, {"a": "write", "e": wr, "n": H}]
+            if kind != "pair":
+                pre.append(lp(0))
+            out.append(pre + [{"a": "tmo", "e": rd, "tr": T, "tw": 0}, lp(T), lp(1), {"a": "read", "e": rd, "n": 99}, lp(T - 1) if T > 1 else lp(0), lp(1), lp(T)])
+            out.append(pre + [{"a": "tmo", "e": rd, "tr": T, "tw": 0}, lp(T + 1), {"a": "read", "e": rd, "n": 99}, lp(T)])
+    return out
+
+
+def sock_stall_family():
+    """Socket writer (endpoint 1) with write timeout T, peer never reads, more queued than the kernel buffers hold (unit =
+    256 KB): the first loop writes what fits, then nothing moves; the application keeps appending at intervals < T:
+    TIMEOUT|WRITING fires T after the last successful transfer regardless of the appends."""
+    out = []
+    lp = lambda t: {"a": "loop", "e": 1, "t": t}
+    w = lambda n: {"a": "write", "e": 1, "n": n}
+    for T in (2, 3):
+        out.append([{"a": "tmo", "e": 1, "tr": 0, "tw": T}, w(4), lp(0), lp(1), w(1), lp(1), w(1), lp(1), w(1), lp(1)])
+        out.append([w(4), {"a": "tmo", "e": 1, "tr": 0, "tw": T}, lp(0), w(1), lp(1), w(1), lp(1), w(1), lp(1), lp(1)])
+        out.append([{"a": "tmo", "e": 1, "tr": 0, "tw": T}, w(4), lp(0), lp(T - 1), w(1), lp(T - 1), w(1), lp(T - 1)])
     return out
 
 
